@@ -424,6 +424,28 @@ class Run:
         ]
         return r
 
+    def coqchk_stage(self, timeout=2400):
+        """thorough tier: re-check the compiled property file and everything it depends on with the independent
+        checker and record the axioms it reports (coqchk -o).  A failure or a non-empty axiom list makes the proof
+        stage count as broken."""
+        mods = ['Teleport.Props.' + self.prop]
+        refdir = os.path.join(THEORIES, 'Refuted')
+        if os.path.isdir(refdir):
+            for f in sorted(os.listdir(refdir)):
+                if f.startswith(self.prop + '_') and f.endswith('.vo'):
+                    mods.append('Teleport.Refuted.' + f[:-3])
+        with Lock('coq'):
+            rc, out = sh(['coqchk', '-silent', '-o', '-Q', THEORIES, 'Teleport'] + mods, cwd=COQ, timeout=timeout)
+        m = re.search(r'\* Axioms:(.*?)\n\s*\n\* Constants', out, flags=re.S)
+        axioms = m.group(1).strip() if m else 'unparsed'
+        ok = rc == 0 and axioms == '<none>'
+        self.coverage['coqchk'] = dict(cmd='coqchk -silent -o -Q theories Teleport ' + ' '.join(mods), rc=rc, axioms=axioms)
+        self.coverage['trusted_base'].append('coqchk (independent checker) re-checked the .vo closure: axioms ' + axioms)
+        if not ok:
+            self.proof['build_ok'] = False
+            self.proof['build_log'] += '\n[coqchk]\n' + out[-2000:]
+        return ok
+
     def proof_ok(self):
         r = self.proof
         return r['build_ok'] and not r['forbidden'] and r['obligations'] > 0 and r['discharged'] == r['obligations']
